@@ -386,19 +386,21 @@ Proof.
     simpl; try discriminate.
   - unfold repr_okb. intro H. apply andb_true_iff in H as [-> H]. split; [reflexivity|].
     destruct (eval_lit out) as [[x l]|]; simpl in H; [|discriminate].
-    apply andb_true_iff in H as [H1 H2]. apply bool_eqb_spec in H1.
+    apply andb_true_iff in H as [H1 H2]. apply (proj1 (bool_eqb_spec _ _)) in H1.
     apply (list_eqb_spec N.eqb N.eqb_eq) in H2. congruence.
   - intros H M. subst modelled. simpl in H. apply (list_eqb_spec okind_eqb okind_eqb_eq). exact H.
   - unfold test_okb, details_okb. intro H.
     repeat (apply andb_true_iff in H as [H ?]).
     apply (list_eqb_spec Bool.eqb bool_eqb_spec) in H. apply outcome_eqb_eq in H1.
+    apply andb_true_iff in H0 as [H0 H6]. apply andb_true_iff in H0 as [H0 H5].
+    apply andb_true_iff in H0 as [H3 H4].
     repeat split; auto.
     + apply same_tokens_sound. assumption.
     + apply nodup_str_iff. assumption.
-    + intros n t Hin. pose proof (proj1 (forallb_forall _ _) H3 (n, t) Hin) as X. simpl in X.
+    + intros n t Hin. pose proof (proj1 (forallb_forall _ _) H5 (n, t) Hin) as X. simpl in X.
       destruct (base_of t (wanted pre steps)) as [base|]; [|discriminate].
       exists base. split; [reflexivity|apply derived_sound; exact X].
-    + intros d Hd. pose proof (proj1 (forallb_forall _ _) H0 d Hd) as X.
+    + intros d Hd. pose proof (proj1 (forallb_forall _ _) H6 d Hd) as X.
       apply existsb_exists in X as [d' [Hin E]]. apply detail_eqb_eq in E. subst. exact Hin.
 Qed.
 
@@ -414,15 +416,28 @@ Proof.
   destruct a as [x e|x|r a oc d|], b as [y f|y|r' a' oc' d'|]; simpl; split; intro H;
     try discriminate; try reflexivity.
   - apply andb_true_iff in H as [H1 H2]. apply (list_eqb_spec N.eqb N.eqb_eq) in H1.
-    apply bool_eqb_spec in H2. congruence.
+    apply (proj1 (bool_eqb_spec _ _)) in H2. congruence.
   - injection H as -> ->. apply andb_true_iff. split; [apply (list_eqb_spec N.eqb N.eqb_eq)|apply bool_eqb_spec]; reflexivity.
   - apply (list_eqb_spec okind_eqb okind_eqb_eq) in H. congruence.
   - injection H as ->. apply (list_eqb_spec okind_eqb okind_eqb_eq). reflexivity.
   - repeat (apply andb_true_iff in H as [H ?]).
-    apply (list_eqb_spec Bool.eqb bool_eqb_spec) in H. apply bool_eqb_spec in H2.
+    apply (list_eqb_spec Bool.eqb bool_eqb_spec) in H. apply (proj1 (bool_eqb_spec _ _)) in H2.
     apply outcome_eqb_eq in H1. apply (list_eqb_spec Nat.eqb Nat.eqb_eq) in H0. congruence.
   - injection H as -> -> -> H. apply map_tok_inj in H. rewrite H.
     rewrite (proj2 (list_eqb_spec Bool.eqb bool_eqb_spec _ _) eq_refl).
     rewrite (proj2 (bool_eqb_spec _ _) eq_refl), (proj2 (outcome_eqb_eq _ _) eq_refl).
     rewrite (proj2 (list_eqb_spec Nat.eqb Nat.eqb_eq _ _) eq_refl). reflexivity.
+Qed.
+
+(* text_repr_lit is repr whenever the multiline branch is not taken *)
+Theorem lit_single_line isb nonprint s ml :
+  Forall (valid isb) s -> match ml with Some b => b | None => memN NL s end = false ->
+  eval_lit (text_repr_lit isb nonprint s ml) = Some (isb, s).
+Proof. intros V H. unfold text_repr_lit. rewrite H. simpl. apply repr_roundtrip. exact V. Qed.
+
+Theorem unique_fresh existing base :
+  exists r, unique_name existing base = Some r /\ ~ In r existing /\ IsCand r base.
+Proof.
+  destruct (unique_name_total existing base) as [r E]. exists r. split; [exact E|].
+  apply unique_name_fresh. exact E.
 Qed.
